@@ -534,6 +534,50 @@ func c19Inbound(x *c19World, spec c19Spec, res *core.CaseResult, verbose bool) {
 		}
 		_ = before
 	}
+	// the same sender string over the two channels of the pair (two counterparty chains may name the same
+	// sender): each memo call runs as an address derived from its own channel, so the two callers differ, and a
+	// repetition gives the same caller again whatever was delivered before
+	{
+		callers := map[string][]common.Address{}
+		for round := 0; round < 2; round++ {
+			for _, src := range []string{a, b} {
+				ctx := c.Branch()
+				// FX coming home to a hex receiver: the one arrival that needs no registered pair on either channel
+				// (the escrow it releases: FX sent out over the other channel of the pair first, on this branch)
+				if _, r := x.loop.Send(ctx, x.users[3], x.loop.Counterparty(src), sdk.NewCoin(fxtypes.DefaultDenom, sdkmath.NewInt(1000)), x.remote.Bech32(), "", c.Time.Add(100*time.Hour)); !r.OK() {
+					continue
+				}
+				pkt, err := x.rawSend(ctx, src, transfertypes.NewFungibleTokenPacketData(fmt.Sprintf("transfer/%s/%s", src, fxtypes.DefaultDenom), "3", x.remote.Bech32(), x.users[0].Hex().Hex(), x.memoCall(x.recorder, []byte{1}, nil)), c.Time.Add(time.Hour))
+				if err != nil {
+					if verbose {
+						fmt.Printf("two-channel memo step: send over %s: %v\n", src, err)
+					}
+					continue
+				}
+				why := ""
+				if verbose {
+					why = x.loop.Explain(ctx, pkt)
+				}
+				ack, rr := x.loop.Recv(ctx, pkt)
+				if !rr.OK() || !fix.AckOK(ack) {
+					if verbose {
+						fmt.Printf("two-channel memo step: recv over %s: %s %s %s\n", src, short(rr.ErrString()), string(ack), why)
+					}
+					continue
+				}
+				callers[src] = append(callers[src], common.BytesToAddress(c.App.EvmKeeper.GetState(ctx, x.recorder, common.Hash{}).Bytes()))
+			}
+		}
+		if len(callers[a]) == 2 && len(callers[b]) == 2 {
+			res.Count("memo_calls_same_sender_over_two_channels", 1)
+			if callers[a][0] == callers[b][0] || callers[a][1] == callers[b][1] {
+				res.Violate("C19/memo-call-sender-not-bound-to-channel", "the same sender %s sent a memo call over %s and over %s: both ran as %s (the derived sender must depend on the channel)", short(x.remote.Bech32()), a, b, callers[a][0].Hex())
+			}
+			if callers[a][0] != callers[a][1] || callers[b][0] != callers[b][1] {
+				res.Violate("C19/memo-call-sender-depends-on-history", "the memo call of sender %s ran as %s, then as %s over %s (and %s, %s over %s)", short(x.remote.Bech32()), callers[a][0].Hex(), callers[a][1].Hex(), a, callers[b][0].Hex(), callers[b][1].Hex(), b)
+			}
+		}
+	}
 	res.Nontrivial = seenOK && seenErr
 	res.Sig = fmt.Sprintf("inbound/ok%d/err%d/memo%d", res.Counters["success_acks"], res.Counters["error_acks"], res.Counters["memo_calls_checked"])
 	res.Sample = map[string]interface{}{"spec": spec, "packets": samples}
